@@ -49,6 +49,7 @@ def main(argv=None):
     prop = a.prop.upper()
     tier = a.tier if a.tier in ("quick", "thorough") else "quick"
     seed = int(os.environ.get("VERIF_SEED", "0") or 0)
+    os.environ["VERIF_TIER_EFFECTIVE"] = tier
     t0 = time.time()
     if a.replay:
         with open(a.replay) as f:
